@@ -13,7 +13,7 @@ import (
 
 func unhex(s string) ([]byte, error) {
 	if s == "-" {
-		return []byte{}, nil
+		return nil, nil // nil, not empty: IsValueEmpty() of byte-slice elements tests for nil
 	}
 	return hex.DecodeString(s)
 }
